@@ -203,6 +203,9 @@ func (fr *frame) callStatic(fn *ssa.Function, args []*Val, bindings []*Val, st *
 	if v := fr.nativeSlices(fn, c, args, st, reach); v != nil {
 		return v
 	}
+	if v := fr.nativeStd(fn, c, args, st, reach); v != nil {
+		return v
+	}
 	if fn.Synthetic == "package initializer" {
 		// initialisation of other packages is outside the unit
 		u.abstract("package-init-call")
@@ -266,6 +269,14 @@ func (fr *frame) callStatic(fn *ssa.Function, args []*Val, bindings []*Val, st *
 	case "strings.TrimSuffix":
 		return &Val{t: fr.defSort("trim", "String", fmt.Sprintf("(ite (str.suffixof %s %s) (str.substr %s 0 (- (str.len %s) (str.len %s))) %s)",
 			args[1].t, args[0].t, args[0].t, args[0].t, args[1].t, args[0].t))}
+	case "strings.CutPrefix":
+		found := fmt.Sprintf("(str.prefixof %s %s)", args[1].t, args[0].t)
+		after := fr.defSort("cut", "String", fmt.Sprintf("(ite %s (str.substr %s (str.len %s) (- (str.len %s) (str.len %s))) %s)", found, args[0].t, args[1].t, args[0].t, args[1].t, args[0].t))
+		return &Val{tuple: []*Val{{t: after}, {t: found}}}
+	case "strings.CutSuffix":
+		found := fmt.Sprintf("(str.suffixof %s %s)", args[1].t, args[0].t)
+		before := fr.defSort("cut", "String", fmt.Sprintf("(ite %s (str.substr %s 0 (- (str.len %s) (str.len %s))) %s)", found, args[0].t, args[0].t, args[1].t, args[0].t))
+		return &Val{tuple: []*Val{{t: before}, {t: found}}}
 	case "strings.EqualFold":
 		u.abstract("strings.EqualFold")
 	}
@@ -885,6 +896,29 @@ func (fr *frame) callBuiltin(b *ssa.Builtin, c *ssa.CallCommon, args []*Val, st 
 		u.assume(reach, fmt.Sprintf("(= %s (ite (< (s-len %s) %s) (s-len %s) %s))", n, dst.t, srcLen, dst.t, srcLen))
 		fr.copyElems(dst, src, c.Args[0].Type(), n, isString(c.Args[1].Type()), st, reach)
 		return &Val{t: n}
+	case "clear":
+		switch t := c.Args[0].Type().Underlying().(type) {
+		case *types.Slice:
+			// every element the slice can see becomes the zero value; the rest of the backing array stays
+			s := u.sorts
+			et := t.Elem()
+			es := s.sortOf(et)
+			name := "E:" + s.typeKey(et)
+			hs := "(Array Int (Array Int " + es + "))"
+			h := u.heapGet(st, name, hs)
+			a := args[0]
+			nv := u.declare("cleared", "(Array Int "+es+")")
+			old := u.define("elems0", "(Array Int "+es+")", fmt.Sprintf("(select %s (s-arr %s))", h, a.t))
+			i := u.fresh("i")
+			in := fmt.Sprintf("(and (<= (s-off %s) %s) (< %s (+ (s-off %s) (s-len %s))))", a.t, i, i, a.t, a.t)
+			u.assume("true", fmt.Sprintf("(forall ((%s Int)) (! (= (select %s %s) (ite %s %s (select %s %s))) :pattern ((select %s %s))))", i, nv, i, in, s.zero(et), old, i, nv, i))
+			u.heapSet(st, name, hs, fmt.Sprintf("(store %s (s-arr %s) %s)", h, a.t, nv))
+		case *types.Map:
+			pn, ps, _, _ := fr.mapHeaps(t)
+			hp := u.heapGet(st, pn, ps)
+			u.heapSet(st, pn, ps, fmt.Sprintf("(store %s %s ((as const (Array %s Bool)) false))", hp, args[0].t, u.sorts.sortOf(t.Key())))
+		}
+		return &Val{t: "0"}
 	case "delete":
 		if args[0].guard != "" && !fr.pure {
 			h := u.heapGet(st, "GH:locks", "(Array Int Int)")
